@@ -36,6 +36,10 @@ func childMain() {
 	switch mode {
 	case "srv":
 		server.StartSCIONServer(ctx, log, "" /* daemonAddr */, &net.UDPAddr{IP: ip, Port: port}, uint8(dscp), ntske.NewProvider())
+	case "srvkeys":
+		// real-derivation keys: fetchers on a fake daemon whose host-AS keys depend on
+		// (protocol, fast-side IA and host, slow-side IA) as real DRKeys do
+		server.VerifC13StartSCIONServer(ctx, log, fakeDaemon{}, &net.UDPAddr{IP: ip, Port: port}, uint8(dscp), ntske.NewProvider())
 	case "disp":
 		server.StartSCIONDispatcher(ctx, log, &net.UDPAddr{IP: ip, Port: port})
 	default:
@@ -56,6 +60,8 @@ type childCfg struct {
 
 func (c childCfg) ip() string {
 	switch {
+	case c.mode == "srvkeys":
+		return "127.0.13.11"
 	case c.mode == "disp":
 		return "127.0.13.5"
 	case c.mock == 1:
